@@ -131,6 +131,7 @@ func Load(o LoadOpts) (*Prog, error) {
 			}
 		}
 	}
+	detectRenames(p)
 	var visit func(tp *types.Package)
 	visit = func(tp *types.Package) {
 		if tp == nil || p.AllPkgs[tp.Path()] != nil {
@@ -179,6 +180,13 @@ func ShortFuncName(f *types.Func) string {
 	if f == nil {
 		return "?"
 	}
+	if n, ok := renamedFrom[f]; ok {
+		return n
+	}
+	return shortFuncName(f)
+}
+
+func shortFuncName(f *types.Func) string {
 	sig, _ := f.Type().(*types.Signature)
 	pk := ""
 	if f.Pkg() != nil {
@@ -470,4 +478,64 @@ func (p *Prog) ModuleDir(module string) (string, error) {
 // TypeLabel renders a type with the package labels used in canonical strings.
 func TypeLabel(t types.Type) string {
 	return types.TypeString(t, func(p *types.Package) string { return pkgLabel(p) })
+}
+
+// renamedFrom maps a function of the analysed tree to the name under which the obligation tables know it: an
+// unexported function that is absent from the tree although the inventory (known_funcs.txt) lists it, and a
+// function of the same package and receiver that the inventory has never seen, with the SAME signature and
+// unique on both sides, are taken to be one function that was renamed. Rules select callees by resolved name; a
+// renamed helper keeps its table rows this way instead of losing every anchor.
+var renamedFrom = map[*types.Func]string{}
+
+func detectRenames(p *Prog) {
+	renamedFrom = map[*types.Func]string{}
+	present := map[string]bool{}
+	for fn := range p.Funcs {
+		present[shortFuncName(fn)] = true
+	}
+	scope := func(name string) string { // "pkg.Recv" or "pkg"
+		return name[:strings.LastIndex(name, ".")]
+	}
+	missing := map[string][]string{}
+	for name := range knownFuncs {
+		if !present[name] {
+			base := name[strings.LastIndex(name, ".")+1:]
+			if base != "" && !(base[0] >= 'A' && base[0] <= 'Z') {
+				missing[scope(name)] = append(missing[scope(name)], name)
+			}
+		}
+	}
+	if len(missing) == 0 {
+		return
+	}
+	fresh := map[string][]*types.Func{}
+	for fn := range p.Funcs {
+		n := shortFuncName(fn)
+		if !knownFuncs[n] && len(knownFuncs) > 0 {
+			fresh[scope(n)] = append(fresh[scope(n)], fn)
+		}
+	}
+	for sc, olds := range missing {
+		for _, old := range olds {
+			sig := knownSigs[old]
+			if sig == "" {
+				continue
+			}
+			var cand []*types.Func
+			for _, fn := range fresh[sc] {
+				if SigString(fn) == sig {
+					cand = append(cand, fn)
+				}
+			}
+			others := 0
+			for _, o2 := range olds {
+				if knownSigs[o2] == sig {
+					others++
+				}
+			}
+			if len(cand) == 1 && others == 1 {
+				renamedFrom[cand[0]] = old // unique on both sides; anything ambiguous is not guessed
+			}
+		}
+	}
 }
